@@ -1,4 +1,6 @@
 import Pyxv.Proofs.ItextLemmas
+import Pyxv.Proofs.ItextIds
+import Pyxv.Proofs.ItextValues
 /-!
 # C07 — every itext reference resolves in every language
 
@@ -8,8 +10,10 @@ Theorems about the translation-table pipeline `Pyxv.Itext` (model of `Survey._se
 any element tree, any number of languages, any sparse pattern of translated slots.
 
 * `langs_nodup`, `ids_nodup`, `pad_uniform`, `default_unique` hold without any hypothesis.
-* `refs_exist` carries one guard: `wf` (a shape invariant of the builder's output: no empty dict in
-  a translatable slot, bind-message keys unique — evaluated by the check on every generated input).
+* `refs_exist` carries two guards: `wf` (a shape invariant of the builder's output: no empty dict in
+  a translatable slot, bind-message keys unique — evaluated by the check on every generated input; proved
+  from the header layer in `Proofs/C07Rows.lean`) and `tagsPlain`, the exact complement of the open defect
+  F45 (osm tags with translated labels are referenced but never filed; `f45_witness`).
   The former guard `choicesLabeled` (defect F6) is gone: `_add_empty_translations` now pads the ids of
   every choice of an itext-requiring list (`f6_repaired` is the former witness, now satisfying the
   property).
@@ -180,7 +184,14 @@ theorem searchItemRefs_entry {x : Survey} (hw : wf x = true) {n r : Str}
   next l hfind => exact listIds_choiceRef hw (List.mem_of_find?_eq_some hfind) h
   next => cases h
 
-theorem bodyRefs_entry {x : Survey} (hw : wf x = true) {f : Flat}
+theorem tagRefs_nil {x : Survey} (ht : tagsPlain x = true) {f : Flat} (hf : f ∈ flats x) : tagRefs f = [] := by
+  simp only [tagsPlain, List.all_eq_true, Bool.not_eq_true'] at ht
+  unfold tagRefs
+  rw [List.flatMap_eq_nil_iff]
+  intro nl hnl
+  simp [ht f hf nl hnl]
+
+theorem bodyRefs_entry {x : Survey} (hw : wf x = true) (ht : tagsPlain x = true) {f : Flat}
     (hf : f ∈ flats x) {r : Str} (h : r ∈ bodyRefs x.lists f) :
     (∃ e ∈ ents x, e.path = r) ∨ ChoiceRef x r := by
   unfold bodyRefs at h
@@ -203,6 +214,12 @@ theorem bodyRefs_entry {x : Survey} (hw : wf x = true) {f : Flat}
     next hcls =>
       have hv : visited f = true := by simp [visited, hcls]
       split at h
+      · rw [tagRefs_nil ht hf, List.append_nil] at h
+        exact Or.inl (label_or_hint_entry hw hf hv (labelAndHint_sub h))
+      · cases h
+    next hcls =>
+      have hv : visited f = true := by simp [visited, hcls]
+      split at h
       · rcases List.mem_append.mp h with h | h
         · exact Or.inl (label_or_hint_entry hw hf hv (labelAndHint_sub h))
         · split at h
@@ -213,13 +230,13 @@ theorem bodyRefs_entry {x : Survey} (hw : wf x = true) {f : Flat}
 
 /-- every reference was filed under some language by `_setup_translations` / `_setup_media`, or is a
 choice id that `_add_empty_translations` pads into every language -/
-theorem ref_entry {x : Survey} (hw : wf x = true) {r : Str}
+theorem ref_entry {x : Survey} (hw : wf x = true) (ht : tagsPlain x = true) {r : Str}
     (h : r ∈ refs x) : (∃ e ∈ ents x, e.path = r) ∨ ChoiceRef x r := by
   unfold refs out at h
   simp only [List.mem_append] at h
   rcases h with (h | h) | h
   · obtain ⟨f, hf, hr⟩ := List.mem_flatMap.mp h
-    exact bodyRefs_entry hw hf hr
+    exact bodyRefs_entry hw ht hf hr
   · obtain ⟨f, hf, hr⟩ := List.mem_flatMap.mp h
     obtain ⟨hv, e, he, hp⟩ := bindRefs_entry x.defaultLanguage (wf_elem hw hf) hr
     exact Or.inl ⟨e, mem_ents_of_elem hf hv (List.mem_append.mpr (Or.inl he)), hp⟩
@@ -240,12 +257,13 @@ theorem nonempty_of_ent {x : Survey} {e : Ent} (he : e ∈ ents x) :
 
 /-- **Every `jr:itext('id')` reference in the body or in bind messages, and every `itextId` of a choice
 item, names a text entry that exists in every translation** (and an itext block exists).
-Guard: `wf` (builder-output shape). -/
-theorem refs_exist (x : Survey) (hw : wf x = true) :
+Guards: `wf` (builder-output shape) and `tagsPlain` (complement of the open defect F45: osm tags with
+translated labels). -/
+theorem refs_exist (x : Survey) (hw : wf x = true) (ht : tagsPlain x = true) :
     ∀ r ∈ refs x, (out x).translations ≠ [] ∧ ∀ t ∈ (out x).translations, r ∈ t.ids := by
   intro r hr
   rw [out_translations]
-  rcases ref_entry hw hr with ⟨e, he, hp⟩ | ⟨hc, e, he⟩
+  rcases ref_entry hw ht hr with ⟨e, he, hp⟩ | ⟨hc, e, he⟩
   · have h1 : e.path ∈ pathsIn (setup (ents x)) e.lang := (mem_pathsIn_setup _ _ _).mpr ⟨e, he, rfl, rfl⟩
     obtain ⟨lps, hl, _, hk⟩ := mem_table_of_pathsIn h1
     refine ⟨nonempty_of_ent he, ?_⟩
@@ -272,9 +290,9 @@ theorem defaultOk_out (x : Survey) : defaultOk (obsOf x.defaultLanguage (out x))
 
 /-- The decidable predicate `Itext.holds` — the oracle evaluated by the check on the implementation's
 XForm — is true of the model's output for every survey satisfying the guard. -/
-theorem holds_out (x : Survey) (hw : wf x = true) :
+theorem holds_out (x : Survey) (hw : wf x = true) (ht : tagsPlain x = true) :
     holds (obsOf x.defaultLanguage (out x)) = true := by
-  have hre := refs_exist x hw
+  have hre := refs_exist x hw ht
   unfold holds
   simp only [Bool.and_eq_true]
   refine ⟨⟨⟨?_, ?_⟩, ?_⟩, ?_⟩
@@ -300,6 +318,58 @@ theorem holds_unconditional (x : Survey) :
   · simp only [noDup, obsOf, Bool.and_eq_true, List.all_eq_true, nodupB_iff]
     exact ⟨langs_nodup x, ids_nodup x⟩
   · exact defaultOk_out x
+
+/-! ### rendered ids (injectivity lemmas in `Proofs/ItextIds.lean`) -/
+
+/-- **No two choice items share an `itextId`**: the ids `list-idx` written into the choice instances are
+pairwise distinct strings whenever the list names are (they are dict keys of `Survey.choices`) — for any
+list names, including ones that contain `-` or end in digits (`a-1` item 0 vs `a` item 10). -/
+theorem itemIds_nodup (x : Survey) (h : (x.lists.map (·.name)).Nodup) : (out x).itemIds.Nodup := by
+  unfold out itemIds
+  apply nodup_flatMap_listIds
+  exact List.Nodup.sublist (List.Sublist.map _ List.filter_sublist) h
+
+/-- **An id names one source**: a text id referenced by a choice item is never the id of an element's label,
+hint or bind message, two element ids coincide only for the same xpath and display element, two choice ids
+only for the same list and index. -/
+theorem rendered_ids_injective :
+    (∀ (n m : Str) (i j : Nat), choiceId n i = choiceId m j → n = m ∧ i = j) ∧
+    (∀ (x y : Str) (d e : String), d ∈ displays → e ∈ displays → path x d = path y e → x = y ∧ d = e) ∧
+    (∀ (n : Str) (i : Nat) (x : Str) (d : String), d ∈ displays → choiceId n i ≠ path x d) :=
+  ⟨fun _ _ _ _ h => choiceId_inj h, fun _ _ _ _ hd he h => path_inj hd he h,
+   fun n i x _ hd => choiceId_ne_path n i x hd⟩
+
+/-- non-vacuity: adversarial names (`a-1` item 0 / `a` item 10; a question named `q:jr` has
+`/data/q:jr:label`, not a message id of `q`) -/
+example : choiceId "a-1".toList 0 ≠ choiceId "a".toList 10 ∧
+    path "/data/q:jr".toList "label" ≠ path "/data/q".toList "jr:constraintMsg" ∧
+    "jr:noAppErrorString" ∈ displays := by
+  refine ⟨?_, ?_, by decide⟩
+  · intro h; have := (choiceId_inj h).2; omega
+  · intro h
+    have := (path_inj (by decide) (by decide) h).2
+    exact absurd this (by decide)
+
+/-! ### value level (lemmas in `Proofs/ItextValues.lean`) -/
+
+/-- **A text written for a language is what that language's translation holds**: the last leaf assignment
+`_translations[lang][id][form] = text` made by `_setup_translations` / `_setup_media` is the value in the
+final table — later assignments to other keys do not disturb it and `_add_empty_translations` never
+overwrites it. -/
+theorem value_written (x : Survey) {pre post : List Ent} {e : Ent} (h : ents x = pre ++ e :: post)
+    (hlast : ∀ e' ∈ post, ¬ sameKey e e') :
+    valueAt (table x) e.lang e.path e.form = some e.text := by
+  have : table x = pad x.lists (setup (ents x)) := rfl
+  rw [this, h]
+  exact valueAt_pad _ _ _ _ _ _ (valueAt_setup_last pre post e hlast)
+
+/-- **No language ever shows a text written for something else**: every value in the final table is
+either the padding `-` or the text of a leaf assignment made for exactly this language, this id and this
+content type. -/
+theorem value_sound (x : Survey) :
+    ∀ lps ∈ table x, ∀ pf ∈ lps.2, ∀ ft ∈ pf.2,
+      ft.2 = dashStr ∨ (⟨lps.1, pf.1, ft.1, ft.2⟩ : Ent) ∈ ents x :=
+  sound_pad x.lists (sound_setup (ents x))
 
 /-! ### non-vacuity, the F6 witness, and facts about the regenerated tables -/
 
@@ -328,10 +398,24 @@ def ex1 (secondLabel : Txt) : Survey :=
 4 translations; the hypothesis of `default_unique` holds for it as well -/
 example :
     let x := ex1 (tr [("en", "B")])
-    wf x = true ∧ choicesLabeled x = true ∧ (refs x).length = 5 ∧ (out x).translations.length = 4 ∧
+    wf x = true ∧ tagsPlain x = true ∧ choicesLabeled x = true ∧ (refs x).length = 5 ∧ (out x).translations.length = 4 ∧
       ((out x).translations.map (·.lang)).contains x.defaultLanguage = true ∧
       (match run x with | .ok _ => true | _ => false) = true ∧
       holds (obsOf x.defaultLanguage (out x)) = true := by decide +kernel
+
+/-- non-vacuity of `itemIds_nodup` -/
+example : (out (ex1 (tr [("en", "B")]))).itemIds.length = 2 ∧
+    ((ex1 (tr [("en", "B")])).lists.map (·.name)).Nodup := by
+  refine ⟨by decide +kernel, by decide +kernel⟩
+
+/-- non-vacuity of the value-level statements: the French constraint message is shown in French, English is
+padded with `-`, the Spanish image is filed under `image` -/
+example :
+    let T := table (ex1 (tr [("en", "B")]))
+    valueAt T "fr".toList "/data/a:jr:constraintMsg".toList "long".toList = some "m".toList ∧
+    valueAt T "en".toList "/data/a:jr:constraintMsg".toList "long".toList = some dashStr ∧
+    valueAt T "es".toList "/data/a:label".toList "image".toList = some "a.png".toList ∧
+    valueAt T "default".toList "/data/a:hint".toList "guidance".toList = some dashStr := by decide +kernel
 
 /-- **F6 repaired**: the same survey with the second choice unlabeled (the former witness of the
 defect) now satisfies the property: `c-1` is padded into every translation. -/
@@ -339,6 +423,23 @@ theorem f6_repaired :
     let x := ex1 .none
     wf x = true ∧ choicesLabeled x = false ∧ (match run x with | .ok _ => true | _ => false) = true ∧
       holds (obsOf x.defaultLanguage (out x)) = true := by decide +kernel
+
+/-- an osm question with two tags, the first with a translated label -/
+def exOsm (tagLabel : Txt) : Survey :=
+  { defaultLanguage := "default".toList
+    lists := []
+    root := .node (q .group "data" .none .none .none) [
+      .node { q .osm "b" (tr [("en", "B")]) .none .none with
+                tags := [("name".toList, tagLabel), ("addr".toList, .str "Addr".toList)] } [] ] }
+
+/-- **F45 on the model**: an osm tag with a translated label is referenced (`/data/b/name:label`) but has
+no text entry — `tagsPlain` is the exact location of an open defect; with plain tag labels the property holds. -/
+theorem f45_witness :
+    (let x := exOsm (tr [("en", "Name"), ("fr", "Nom")])
+     wf x = true ∧ tagsPlain x = false ∧ (match run x with | .ok _ => true | _ => false) = true ∧
+      refsExist (obsOf x.defaultLanguage (out x)) = false) ∧
+    (let x := exOsm (.str "Name".toList)
+     wf x = true ∧ tagsPlain x = true ∧ holds (obsOf x.defaultLanguage (out x)) = true) := by decide +kernel
 
 /-- the languages' id lists differ in order but not as sets (why `pad_uniform` is stated on membership) -/
 example :
